@@ -11,7 +11,7 @@ From Interval Require Import Tactic.
 From PyOrb.lib Require Import PyReal SgpOutcome.
 From PyOrb.spec Require Import Spec_SGP4.
 From PyOrb.gen Require Import Gen_astronomy Gen_orbital Gen_sgp4 Gen_sgp4_compose.
-From PyOrb.proofs Require Import P_Sgp4Init P_Sgp4Prop P_Sgp4Tree P_Sgp4Exits P_Kep.
+From PyOrb.proofs Require Import P_Sgp4Init P_Sgp4Prop P_Sgp4Tree P_Sgp4Exits P_Sgp4Kepler P_Kep.
 Open Scope R_scope.
 
 Section C01.
@@ -107,6 +107,21 @@ Proof.
   pose proof exit_10. exact I.
 Qed.
 Print Assumptions C01_all_exits_proved.
+
+(* Kepler's equation has exactly one solution Es (within sqrt eL2 of U), and an Ew whose residual is below
+   1e-12 -- what exits 0..9 return -- is within 1e-12 / (1 - sqrt eL2) rad of it: the Newton loop's stopping
+   rule bounds the distance to the report's exact E + omega, whatever path the iteration took. *)
+Theorem C01_kepler_accuracy : forall e0 i r w m n b ts j Ucap Ew,
+  gen_init_outcome e0 i r w m n b = InitMode NearNorm 1 ->
+  gen_nn1_prop_outcome e0 i r w m n b ts = PropOk j ->
+  let El := E e0 i r w m n b in let T := mkT false ts in let ec := ecl e0 i r w m n b ts in
+  Rabs (kepler_residual El T ec Ucap Ew) < 1 / 1000000000000 ->
+  exists Es, kepler_residual El T ec Ucap Es = 0 /\
+             (forall Es', kepler_residual El T ec Ucap Es' = 0 -> Es' = Es) /\
+             Rabs (Es - Ucap) <= sqrt (eL2 El T ec) /\ sqrt (eL2 El T ec) < 1 /\
+             (1 - sqrt (eL2 El T ec)) * Rabs (Ew - Es) < 1 / 1000000000000.
+Proof. intros e0 i r w m n b ts j Ucap Ew Hl Hp El T ec. exact (kepler_accuracy e0 i r w m n b ts Hl j Ucap Ew _ Hp). Qed.
+Print Assumptions C01_kepler_accuracy.
 
 (* orientation vectors: position = radius * U, velocity = rdotk * U + rfdotk * V *)
 Theorem C01_state : forall radius theta eqinc ascn rdk rfdk,
